@@ -62,7 +62,8 @@ void h_readName(void) { Parser *p; iora_sv r = Parser_readName(p); IORA_CANARY("
 
 /* ---- readUntil ---- */
 DECL_readUntil(Parser_readUntil_safe, UNTIL_SAFE)
-DECL_readUntil(Parser_readUntil_slice, UNTIL_SLICE)
+DECL_readUntil(Parser_readUntil_range, UNTIL_RANGE)
+DECL_readUntil(Parser_readUntil_term, UNTIL_TERM)
 DECL_readUntil(Parser_readUntil_first, UNTIL_FIRST)
 void h_readUntil(void) { Parser *p; iora_sv e; size_t *s; size_t *l; bool r = Parser_readUntil(p, e, s, l); IORA_CANARY("h_readUntil: returns");
   if (r) { IORA_CANARY("h_readUntil: found"); } else { IORA_CANARY("h_readUntil: not found"); } }
